@@ -390,7 +390,7 @@ func buildRaw(root string, v Vars, o buildOpts) *buildResult {
 		res.After = readTree(root)
 		res.Executed = map[string]bool{}
 		for _, s := range res.Steps {
-			for _, t := range []string{tGen, tMid, tTop, tLeaf, tOther} {
+			for _, t := range []string{tGen, tMid, tTop, tLeaf, tOther, tColon} {
 				if bodyName(t) == s {
 					res.Executed[t] = true
 				}
@@ -455,7 +455,7 @@ func dryThenRealSameProject(root string, v Vars, target string) *buildResult {
 	res.Steps = be.steps
 	res.After = readTree(root)
 	for _, s := range be.steps {
-		for _, t := range []string{tGen, tMid, tTop, tLeaf, tOther} {
+		for _, t := range []string{tGen, tMid, tTop, tLeaf, tOther, tColon} {
 			if bodyName(t) == s {
 				res.Executed[t] = true
 			}
